@@ -1,0 +1,26 @@
+//go:build verif
+
+package configloader
+
+import "context"
+
+// VerifStartWithoutInformers starts only the loaders that need no API watch (the defaults)
+// and marks the manager started: the verification harness in /verif feeds ConfigMap and
+// Secret events synchronously through VerifHandleUpdate instead of informer goroutines.
+func (c *ConfigManager) VerifStartWithoutInformers(ctx context.Context) error {
+	for _, loader := range c.loaders {
+		if d, ok := loader.(*DefaultsLoader); ok {
+			if err := d.Start(ctx); err != nil {
+				return err
+			}
+		}
+	}
+	c.started = true
+	return nil
+}
+
+// VerifHandleUpdate delivers one ConfigMap add/update event.
+func (c *ConfigMapLoader) VerifHandleUpdate(obj interface{}) { c.handleUpdate(obj) }
+
+// VerifHandleUpdate delivers one Secret add/update event.
+func (c *SecretLoader) VerifHandleUpdate(obj interface{}) { c.handleUpdate(obj) }
